@@ -1,9 +1,11 @@
 (* C03 - Check, mate and draw status; incremental state never stale.
-   Proved: the status classification order of Board::state. OPEN: C03_in_check_statement,
-   C03_fresh_statement (decided by the correspondence: in_check/state against the rules spec, moved
+   Proved: the status classification order of Board::state; for every board the parser accepts or the
+   builder returns, in_check() = "the side to move's king is attacked" in the rules-level sense
+   (C03_in_check_parsed, C03_in_check_built); from-scratch pin/check information does not change the
+   abstract position. OPEN: the same for boards reached by moves (incremental update), and C03_fresh (decided by the correspondence: in_check/state against the rules spec, moved
    board against the re-parsed one on legal moves, hash, text, Debug rendering, pins, checkers). *)
 From Coq Require Import NArith List Bool.
-From Chess Require Import base.Bits base.Types model.Board model.MoveGen model.Apply model.Fen spec.Rules proofs.CoreFacts.
+From Chess Require Import base.Bits base.Types base.BitBoard model.Board model.MoveGen model.Apply model.Fen spec.Rules proofs.CoreFacts proofs.BridgeFacts proofs.PlayableFacts.
 Local Open Scope N_scope.
 
 Theorem C03_state_classification : forall b,
@@ -15,6 +17,14 @@ Theorem C03_state_classification : forall b,
   /\ (nomoves = false /\ b_half b < 100 /\ Board.in_check b = false -> state b = GRunning).
 Proof. exact state_classification. Qed.
 Print Assumptions C03_state_classification.
+
+Theorem C03_in_check_parsed : forall s b, parse_fen_t s = Ret (POk b) -> Board.in_check b = Rules.in_check (abs b).
+Proof. exact parse_in_check. Qed.
+Print Assumptions C03_in_check_parsed.
+
+Theorem C03_in_check_built : forall b b', BridgeFacts.Part b -> build b = inl b' -> Board.in_check b' = Rules.in_check (abs b').
+Proof. exact build_in_check. Qed.
+Print Assumptions C03_in_check_built.
 
 Definition C03_in_check_statement (Reach : board -> Prop) : Prop :=
   forall b, Reach b -> Board.in_check b = Rules.in_check (abs b).
